@@ -28,9 +28,10 @@ Definition cw_state := list cmodel.
 (* the work profiles of the world: profile id -> execution strategies (in order) *)
 Definition world := list (Z * list strategy).
 (* a worker as the scheduler sees it: available resource vector (in the order of the
-   Resources dict), is_available(profile) for the profiles it knows (0 = loaded), and the ids of the tasks
-   placed on it (Worker._placed_tasks, copied by Worker.__copy__) *)
-Record worker := mkW { w_id : Z; w_res : resvec; w_loaded : list (Z * Z); w_placed : list Z }.
+   Resources dict), is_available(profile) for the profiles it knows (0 = loaded), the ids of the tasks
+   placed on it (Worker._placed_tasks, copied by Worker.__copy__), and what each profile holds of the worker's resources
+   (Resources._current_allocations[profile]: (name, id, quantity) records, given back by evict_profile) *)
+Record worker := mkW { w_id : Z; w_res : resvec; w_loaded : list (Z * Z); w_placed : list Z; w_palloc : list (Z * resvec) }.
 Record pool := mkP { p_id : Z; p_workers : list worker }.
 
 Definition zlen {A} (l : list A) : Z := Z.of_nat (length l).
@@ -103,7 +104,7 @@ Definition w_place (w : worker) (s : strategy) (ts : list (Z)) : result worker :
   if existsb (fun i => zmem i (w_placed w)) ts || negb (znodup ts) then Err 2 else
   match res_allocate_multiple (w_res w) (s_res s) with
   | Err c => Err c
-  | Ok v => Ok (mkW (w_id w) v (w_loaded w) (w_placed w ++ ts))
+  | Ok v => Ok (mkW (w_id w) v (w_loaded w) (w_placed w ++ ts) (w_palloc w))
   end.
 
 (* ---------------------------------------------------------------- Model: queues and task map *)
@@ -360,22 +361,72 @@ Fixpoint infer_pools (ls : bool) (now : Z) (ps : list pool) (st : cw_state) (acc
                 | Err c => Err c | Ok (st', acc') => infer_pools ls now ps' st' acc' end
   end.
 
-(* ---------------------------------------------------------------- schedule() *)
-(* run_load / refresh_priorities (float priorities) are an oracle: when the option is on, its answer is
-   the list of LOAD/EVICT decisions (type, profile, pool, worker) and the virtual pools it leaves *)
+(* ---------------------------------------------------------------- run_load: the virtual cluster it leaves *)
+Fixpoint find_worker (pid wid : Z) (ps : list pool) : option worker :=
+  match ps with
+  | [] => None
+  | p :: ps' => if p_id p =? pid
+                then match filter (fun w => w_id w =? wid) (p_workers p) with w :: _ => Some w | [] => find_worker pid wid ps' end
+                else find_worker pid wid ps'
+  end.
+(* Resources.deallocate gives every recorded (resource, quantity) back to its cell *)
+Fixpoint res_add_back (v : resvec) (n i q : Z) : resvec :=
+  match v with
+  | [] => [(n, i, q)]
+  | (n', i', q') :: v' => if (n =? n') && (i =? i') then (n', i', q' + q) :: v' else (n', i', q') :: res_add_back v' n i q
+  end.
+Fixpoint zremove {B} (k : Z) (l : list (Z * B)) : list (Z * B) :=
+  match l with [] => [] | (k', v) :: l' => if k' =? k then zremove k l' else (k', v) :: zremove k l' end.
+(* Worker.evict_profile on the virtual copy: the profile leaves the available / pending profiles, its resources return *)
+Definition w_evict (mid : Z) (w : worker) : worker :=
+  mkW (w_id w)
+      (fold_left (fun v e => let '(n, i, q) := e in res_add_back v n i q)
+                 (match zassoc mid (w_palloc w) with Some a => a | None => [] end) (w_res w))
+      (zremove mid (w_loaded w)) (w_placed w) (zremove mid (w_palloc w)).
+Definition evict_in_pools (mid pid wid : Z) (ps : list pool) : list pool :=
+  map (fun p => if p_id p =? pid
+                then mkP (p_id p) (map (fun w => if w_id w =? wid then w_evict mid w else w) (p_workers p))
+                else p) ps.
+(* run_load / refresh_priorities (float priorities) are an oracle for WHICH profiles are loaded and evicted: when the option
+   is on, its answer is the list of LOAD/EVICT decisions (type 2/1, profile, pool, worker) in the order they were taken.
+   Their EFFECT on the virtual cluster that run_inference reads next is modelled: every eviction is applied to the copy
+   (worker.evict_profile, clockwork_scheduler.py:816); a LOAD is only announced (the copy is not touched).  An eviction of a
+   profile the worker does not hold raises ValueError (2); a decision naming an unknown worker has no counterpart (8). *)
 Definition load_decision := (Z * Z * Z * Z)%type.
-Record invocation := mkInv { i_now : Z; i_offered : list task; i_pools : list pool;
-                             i_load : option (list load_decision * list pool) }.
+Fixpoint apply_load (lds : list load_decision) (ps : list pool) : result (list pool) :=
+  match lds with
+  | [] => Ok ps
+  | (ty, mid, pid, wid) :: rest =>
+      if ty =? 1 then
+        match find_worker pid wid ps with
+        | None => Err 8
+        | Some w =>
+            match zassoc mid (w_loaded w), zassoc mid (w_palloc w) with
+            | Some _, Some _ => apply_load rest (evict_in_pools mid pid wid ps)
+            | _, _ => Err 2
+            end
+        end
+      else apply_load rest ps
+  end.
+
+(* ---------------------------------------------------------------- schedule() *)
+Record invocation := mkInv { i_now : Z; i_offered : list task; i_pools : list pool; i_load : option (list load_decision) }.
 Record decisions := mkD { d_cancel : list task; d_load : list load_decision; d_batches : list batch }.
+(* the virtual cluster run_inference works on *)
+Definition load_pools (inv : invocation) : result (list pool) :=
+  match i_load inv with Some lds => apply_load lds (i_pools inv) | None => Ok (i_pools inv) end.
 
 Definition cw_schedule (wd : world) (ls : bool) (inv : invocation) (st : cw_state) : result (cw_state * decisions) :=
   match admission wd (i_now inv) (i_offered inv) st [] with
   | Err c => Err c
   | Ok (st1, cancels) =>
-      let '(lds, ps) := match i_load inv with Some (l, ps') => (l, ps') | None => ([], i_pools inv) end in
-      match infer_pools ls (i_now inv) ps st1 [] with
+      match load_pools inv with
       | Err c => Err c
-      | Ok (st2, bs) => Ok (st2, mkD cancels lds bs)
+      | Ok ps =>
+          match infer_pools ls (i_now inv) ps st1 [] with
+          | Err c => Err c
+          | Ok (st2, bs) => Ok (st2, mkD cancels (match i_load inv with Some l => l | None => [] end) bs)
+          end
       end
   end.
 
@@ -436,13 +487,6 @@ Fixpoint zlist_eqb (a b : list Z) : bool :=
   match a, b with [] , [] => true | x :: a', y :: b' => (x =? y) && zlist_eqb a' b' | _, _ => false end.
 Fixpoint find_strategy (sid : Z) (ss : list strategy) : option strategy :=
   match ss with [] => None | s :: ss' => if s_id s =? sid then Some s else find_strategy sid ss' end.
-Fixpoint find_worker (pid wid : Z) (ps : list pool) : option worker :=
-  match ps with
-  | [] => None
-  | p :: ps' => if p_id p =? pid
-                then match filter (fun w => w_id w =? wid) (p_workers p) with w :: _ => Some w | [] => find_worker pid wid ps' end
-                else find_worker pid wid ps'
-  end.
 (* a batch as reported by the implementation: pool, worker, strategy id, start time, members *)
 Record obatch := mkOB { ob_pool : Z; ob_worker : Z; ob_sid : Z; ob_time : Z; ob_tasks : list task }.
 (* C15 for one reported batch, given the worker as the scheduler saw it when it chose the batch *)
@@ -497,7 +541,24 @@ Fixpoint mon_batches (wd : world) (now : Z) (ps : list pool) (bs : list obatch) 
 Definition mon_cancel (wd : world) (now : Z) (offered : list task) (cancelled : list Z) : bool :=
   zlist_eqb (map t_id (filter (hopeless wd now) offered)) cancelled.
 (* one invocation as observed: now, offered, pools as seen, cancelled ids, batches *)
-Record oinv := mkOI { oi_now : Z; oi_offered : list task; oi_pools : list pool; oi_cancelled : list Z; oi_batches : list obatch }.
+Record oinv := mkOI { oi_now : Z; oi_offered : list task; oi_pools : list pool; oi_cancelled : list Z; oi_batches : list obatch;
+                      oi_load : list load_decision }.
+(* is profile `mid` evicted from worker (pid, wid) once all LOAD/EVICT decisions of the invocation are taken?
+   (an EVICT not followed by a LOAD of the same profile on the same worker) *)
+Fixpoint evicted_at_end (lds : list load_decision) (mid pid wid : Z) (cur : bool) : bool :=
+  match lds with
+  | [] => cur
+  | (ty, m, p, w) :: rest =>
+      if (m =? mid) && (p =? pid) && (w =? wid)
+      then evicted_at_end rest mid pid wid (if ty =? 1 then true else if ty =? 2 then false else cur)
+      else evicted_at_end rest mid pid wid cur
+  end.
+(* no batch of a model on a worker from which the same invocation evicts that model *)
+Definition mon_evicted (lds : list load_decision) (bs : list obatch) : bool :=
+  forallb (fun b => match ob_tasks b with
+                    | [] => true
+                    | t0 :: _ => negb (evicted_at_end lds (t_model t0) (ob_pool b) (ob_worker b) false)
+                    end) bs.
 Definition oi_placed (o : oinv) : list Z := flat_map (fun b => map t_id (ob_tasks b)) (oi_batches o).
 Definition mon_invocation (wd : world) (o : oinv) : bool :=
   mon_cancel wd (oi_now o) (oi_offered o) (oi_cancelled o)
@@ -506,7 +567,9 @@ Definition mon_invocation (wd : world) (o : oinv) : bool :=
   && znodup (oi_cancelled o ++ oi_placed o)
   && forallb (fun i => zmem i (map t_id (oi_offered o))) (oi_cancelled o ++ oi_placed o)
   (* a hopeless request is never placed *)
-  && forallb (fun b => forallb (fun t => negb (hopeless wd (oi_now o) t)) (ob_tasks b)) (oi_batches o).
+  && forallb (fun b => forallb (fun t => negb (hopeless wd (oi_now o) t)) (ob_tasks b)) (oi_batches o)
+  (* a batch is placed only where its model is still loaded at the end of the invocation's decisions *)
+  && mon_evicted (oi_load o) (oi_batches o).
 (* over a run: no request is placed twice *)
 Definition mon_once (os : list oinv) : bool := znodup (flat_map oi_placed os).
 Definition mon_history (wd : world) (os : list oinv) : bool := forallb (mon_invocation wd) os && mon_once os.
